@@ -511,6 +511,31 @@ func init() {
 	}
 	mk("Batch4SmallOrderKeyZip215", func() string { return soBatch(true) })
 	mk("Batch4SmallOrderKeyDefault", func() string { return soBatch(false) })
+	// one triple with a small-order R that satisfies the cofactored equation (S = h*a for the honest key),
+	// verified under ZIP-215 rules and under default rules by SEPARATE calls (single and in a batch of 4)
+	soR := func(zip, batch bool) string {
+		f := fixtures()
+		R := make([]byte, 32)
+		R[0] = 1 // the neutral element
+		a, _ := ref.ExpandSeed(f.seed)
+		hh := ref.HashModL(R, f.pub, f.msg)
+		S := new(big.Int).Mul(hh, a)
+		S.Mod(S, ref.L)
+		sig := append(append([]byte{}, R...), ref.ToLE(S, 32)...)
+		o := &ed25519.Options{ZIP215Verify: zip}
+		if !batch {
+			return dig(ed25519.VerifyWithOptions(f.pub, f.msg, sig, o))
+		}
+		pubs := append([]ed25519.PublicKey{f.pub}, f.batchPub[:3]...)
+		msgs := append([][]byte{f.msg}, f.batchMsg[:3]...)
+		sigs := append([][]byte{sig}, f.batchSig[:3]...)
+		all, valid, e := ed25519.VerifyBatch(rt.NewRng(1, "c15"), pubs, msgs, sigs, o)
+		return dig(all, valid, e)
+	}
+	mk("VerifySmallOrderRZip215", func() string { return soR(true, false) })
+	mk("VerifySmallOrderRDefault", func() string { return soR(false, false) })
+	mk("Batch4SmallOrderRZip215", func() string { return soR(true, true) })
+	mk("Batch4SmallOrderRDefault", func() string { return soR(false, true) })
 	mk("Batch64BadLast", func() string { return batchCall(64, 63) })
 	mk("Batch64Bad60", func() string { return batchCall(64, 60) })
 	mk("Batch8ThirdCtx", func() string {
@@ -981,6 +1006,19 @@ func jobC15hist(c *rt.Ctx) {
 				}
 				sq := append(rep(opIx(failing), nrep), opIx(sn))
 				seqs = append(seqs, sq)
+			}
+		}
+	}
+	// the same triple under one rule set, then under the other (every ordered pair and triple of the four
+	// small-order-R operations): an acceptance under ZIP-215 rules must not carry over to default rules
+	{
+		names := []string{"VerifySmallOrderRZip215", "VerifySmallOrderRDefault", "Batch4SmallOrderRZip215", "Batch4SmallOrderRDefault"}
+		for _, a := range names {
+			for _, b := range names {
+				seqs = append(seqs, []int{opIx(a), opIx(b)})
+				for _, d := range names {
+					seqs = append(seqs, []int{opIx(a), opIx(b), opIx(d)})
+				}
 			}
 		}
 	}
